@@ -137,6 +137,7 @@ class Outcome:
 	render_message: str = ''
 	frames: list[str] = field(default_factory=list)
 	quoted: bool = False
+	fatal_site: str = ''  # for Errors.Fatal(…, 'Unhandled error', inner): `<inner class>@<innermost tranp frame of inner>`
 
 	@property
 	def violates(self) -> bool:
@@ -275,6 +276,9 @@ class Pipeline:
 			msg = _safe_str(e)
 			if is_app_error(e):
 				out = Outcome('error', class_name(e), '', msg)
+				inner = next((a for a in e.args if isinstance(a, BaseException)), None)
+				if type(e).__name__ == 'Fatal' and inner is not None:
+					out.fatal_site = escape_key(inner, self.mode) if inner.__traceback__ is not None else f'{class_name(inner)}@no-traceback'
 			else:
 				out = Outcome('escape', class_name(e), escape_key(e, self.mode), msg, frames=tranp_frames(e)[-6:])
 		if caught is not None:
